@@ -10,6 +10,7 @@
 //     w:<b>                        digest of the block's serialisation (after adding one QR referring to nothing)
 //   answer: I r1 r2 ...
 #include "common.h"
+#include <algorithm>
 #include "records.h"
 #include <map>
 #include <memory>
@@ -96,6 +97,28 @@ std::string one(Blocks& B, const std::string& tok) {
             b.write(enc);
         }
         return vh::digest(sink);
+    }
+    // items and the read cursors of CdnsBlockRead
+    if (op == "iq") { CDNS::QueryResponse q; q.client_port = static_cast<uint16_t>(rec::U(a[2])); blk(a[1]).add_question_response_record(q, boost::none); return "ok"; }
+    if (op == "im") { CDNS::MalformedMessage m; m.client_port = static_cast<uint16_t>(rec::U(a[2])); blk(a[1]).add_malformed_message(m, boost::none); return "ok"; }
+    if (op == "ia") {
+        CDNS::CdnsBlockRead& b = blk(a[1]);
+        CDNS::AddressEventCount ae;
+        ae.ae_type = static_cast<CDNS::AddressEventTypeValues>(rec::U(a[2]));
+        ae.ae_address_index = b.add_ip_address(std::string("\x7f\x00\x00\x01", 4));
+        b.add_address_event_count(ae, boost::none);
+        return "ok";
+    }
+    if (op == "rq") { bool end = false; auto g = blk(a[1]).read_generic_qr(end); return end ? "end" : shownum(g.client_port); }
+    if (op == "rm") { bool end = false; auto g = blk(a[1]).read_generic_mm(end); return end ? "end" : shownum(g.client_port); }
+    if (op == "RA") {
+        CDNS::CdnsBlockRead& b = blk(a[1]);
+        std::vector<std::string> got;
+        while (true) { bool end = false; auto g = b.read_generic_aec(end); if (end) break; got.push_back(std::to_string(static_cast<unsigned>(g.ae_type)) + "*" + std::to_string(g.ae_count)); }
+        std::sort(got.begin(), got.end());
+        std::string r;
+        for (auto& x : got) r += (r.empty() ? "" : ",") + x;
+        return r.empty() ? "-" : r;
     }
     char k = op[0];
     std::string T = op.substr(1);
